@@ -649,6 +649,45 @@ func (g *apuGenSt) waveStopRetriggerCase(f, how, play int) {
 	g.p.c.class(fmt.Sprintf("wavestop/%03x/%d", f, how))
 }
 
+// channel 1 sweep (addition) whose first calculation lands exactly on, just below and just above the largest legal
+// frequency 2047
+func (g *apuGenSt) sweepBoundaryCase(f, sh int) {
+	g.reset(3)
+	g.w(0xff10, 0x10|sh)
+	g.w(0xff12, 0xf0)
+	g.w(0xff13, f&0xff)
+	g.w(0xff14, 0x80|f>>8)
+	g.r(0xff26)
+	for j := 0; j < 3; j++ {
+		g.c(32768)
+		g.r(0xff26)
+	}
+	g.p.do("st")
+	g.p.c.class(fmt.Sprintf("sweepedge/%d/%d/%d", f, sh, f+f>>uint(sh)))
+}
+
+// channel 3 playing with one position step per machine cycle (7FE) or two (7FF), re-triggered after n cycles for every
+// n up to a full turn of the 32 positions; then stopped and wave RAM read back (the DMG retrigger corruption copies
+// bytes depending on the position - every position must do what the model says)
+func (g *apuGenSt) waveRetriggerSweepCase(f, n int) {
+	g.reset(0)
+	for i := 0; i < 16; i++ {
+		g.w(0xff30+i, (i*0x13+0x21)&0xff)
+	}
+	g.w(0xff1a, 0x80)
+	g.w(0xff1c, 0x20)
+	g.w(0xff1d, f&0xff)
+	g.w(0xff1e, 0x80|f>>8)
+	g.c(n)
+	g.w(0xff1e, 0x80|f>>8)
+	g.c(1)
+	g.w(0xff1a, 0x00)
+	for i := 0; i < 16; i++ {
+		g.r(0xff30 + i)
+	}
+	g.p.c.class(fmt.Sprintf("waveretrig/%03x/%d", f, n))
+}
+
 // channel 3 playing, re-triggered (or stopped and restarted), and wave RAM written / read straight after the trigger,
 // before the next sample fetch; then stopped and read back
 func (g *apuGenSt) waveAccessAfterTriggerCase(f, play int, restart bool) {
@@ -1041,6 +1080,18 @@ func apuGen(c *ctx) {
 			}
 			c.class(fmt.Sprintf("live-readback/%d", k))
 		}
+		for sh := 1; sh <= 7; sh++ {
+			for f := 1; f < 2048; f++ {
+				if t := f + f>>uint(sh); t >= 2046 && t <= 2048 {
+					g.sweepBoundaryCase(f, sh)
+				}
+			}
+		}
+		for _, f := range []int{0x7fe, 0x7ff, 0x7fc} {
+			for n := 1; n <= 36; n++ {
+				g.waveRetriggerSweepCase(f, n)
+			}
+		}
 		for _, f := range []int{0x400, 0x600, 0x700, 0x7c0, 0x7f0, 0x7ff} {
 			for k := 0; k < 4; k++ {
 				g.waveAccessAfterTriggerCase(f, 300+c.rng.intn(6000), k%2 == 1)
@@ -1127,6 +1178,13 @@ func apuGen(c *ctx) {
 				}
 				for _, pre := range []int{100, 2148} {
 					g.nrx4FlipCase(ch, variant, pre)
+				}
+			}
+		}
+		for sh := 1; sh <= 7; sh++ {
+			for f := 1; f < 2048; f++ {
+				if t := f + f>>uint(sh); t >= 2046 && t <= 2048 {
+					g.sweepBoundaryCase(f, sh)
 				}
 			}
 		}
